@@ -68,6 +68,7 @@ class EAS:
         beta = np.asarray(beta, dtype=np.float64)
         tauBeta = np.asarray(tauBeta, dtype=np.float64)
         tauLorentz = np.asarray(tauLorentz, dtype=np.float64)
+        u = np.asarray(u, dtype=np.float64)
 
         tDec = -tauLorentz * mean_Tau_life * np.log(u)  # seconds
 
